@@ -485,6 +485,15 @@ func Bin(op Op, a, b *Term) *Term {
 			}
 		}
 	}
+	if op == OSub && a.Op == OAdd {
+		// (x + y) - x = y
+		if a.A == b {
+			return a.B
+		}
+		if a.B == b {
+			return a.A
+		}
+	}
 	if a == b {
 		switch op {
 		case OSub, OXor:
